@@ -15,6 +15,8 @@ From Verif Require Import Containers.BitVecModel.
 From Verif Require Import Jit.JitSpec Jit.JitSpecProofs Jit.JitIter.
 From Verif Require Import Containers.RangeIterModel.
 From Verif Require Import Sections.SectionModel Sections.SectionProofs Sections.CopyProofs.
+From Verif Require Import Jit.JitTablesCheck Jit.JitQuery Jit.JitReuse.
+From VerifGen Require JitTables.
 From Verif Require Import Jit.JitModel.
 From Verif Require Import Jit.JitStats Jit.JitVmModel Jit.JitVmProofs Jit.JitTree Jit.JitRuntimeModel Jit.JitRuntimeProofs.
 Import ListNotations.
@@ -441,3 +443,123 @@ Print Assumptions C09_runtime_code_disjoint.
 
 Example C09_runtime_hyps_sat : forall c, rinv c (mkR (init_state c) []).
 Proof. exact rinv_init. Qed.
+
+(* ================================================================ round 5 *)
+
+(* ---------------------------------------------------------------- translator tie: coq/gen/JitTables.v is regenerated from the
+   tree under test on every run (harness/c09_dump.cpp evaluates the REAL functions on grids of arguments); the model's
+   constants, CreateParams normalisation (norm_gran / norm_bsize / norm_pools), size_to_pool and ideal_block_size give the
+   same answer on every row *)
+Theorem C09_tables_match_source :
+  check_tables JitTables.consts JitTables.create_table JitTables.pool_table JitTables.ideal_table = true.
+Proof. exact JitTables.tables_ok. Qed.
+Print Assumptions C09_tables_match_source.
+
+Theorem C09_tables_rows : 
+  (forall r, In r JitTables.create_table -> check_create (snd JitTables.consts) r = true) /\
+  (forall r, In r JitTables.pool_table -> check_pool r = true) /\
+  (forall r, In r JitTables.ideal_table -> check_ideal r = true).
+Proof. exact (check_tables_spec _ _ _ _ JitTables.tables_ok). Qed.
+Print Assumptions C09_tables_rows.
+
+(* ---------------------------------------------------------------- query() reflects exactly the live spans: an address inside a
+   live span (any granule of it) answers Ok with the rest of that span from the queried granule on; an address of the block
+   that no live span covers — free granules, released or shrunk-away memory, the initial padding granule, the tail beyond
+   the area — answers InvalidArgument.  (Unknown blocks: C09_foreign_rejected.) *)
+Theorem C09_query_exact : forall c st id off b,
+  cfg_ok c -> reach c st -> find_block id (blocks st) = Some b ->
+  let g := pool_gran c (b_pool b) in
+  let k := off / g in
+  (forall s n, In (s, n) (b_live b) -> s <= k < s + n -> query c st id off = RQuery Ok id (k * g) ((s + n - k) * g)) /\
+  (~ covered (b_live b) k -> query c st id off = RQuery InvalidArgument 0 0 0).
+Proof. exact query_exact. Qed.
+Print Assumptions C09_query_exact.
+
+(* non-vacuity, and the pinned behaviour (known finding C09/known/query-accepts-padding-granule, fixes/C09-query-padding.patch):
+   the pinned allocator accepts the block base and returns the padding granule as a span *)
+Theorem C09_query_padding_refuted_pinned :
+  query cfg_p (run cfg_p (init_state cfg_p) [OAlloc 100]) 0 0 = RQuery Ok 0 0 64 /\
+  query cfg_f (run cfg_f (init_state cfg_f) [OAlloc 100]) 0 0 = RQuery InvalidArgument 0 0 0 /\
+  query cfg_f (run cfg_f (init_state cfg_f) [OAlloc 100]) 0 100 = RQuery Ok 0 64 128.
+Proof. exact pinned_query_padding. Qed.
+Print Assumptions C09_query_padding_refuted_pinned.
+
+(* ---------------------------------------------------------------- what must NOT change: alloc / release / shrink that answer an
+   error leave the whole allocator state exactly as it was (every state, every variant); query has no state result at all *)
+Theorem C09_errors_change_nothing : forall c st,
+  (forall size st' e id off len, alloc c st size = (st', RAlloc e id off len) -> e <> Ok -> st' = st) /\
+  (forall id off st' e i d, release c st id off = (st', RRelease e i d) -> e <> Ok -> st' = st) /\
+  (forall id off ns st' e i l, shrink c st id off ns = (st', RShrink e i l) -> e <> Ok -> st' = st).
+Proof. exact errors_change_nothing. Qed.
+Print Assumptions C09_errors_change_nothing.
+
+Example C09_errors_change_nothing_hyps_sat :
+  exists st', alloc cfg_f (init_state cfg_f) 0 = (st', RAlloc InvalidArgument 0 0 0) /\ InvalidArgument <> Ok.
+Proof. eexists. split; [vm_compute; reflexivity|discriminate]. Qed.
+
+(* ---------------------------------------------------------------- released memory is reusable, directly: after a release that
+   keeps the block, a request that is routed to the same pool and fits into the released span never creates a new block *)
+Theorem C09_release_then_alloc_reuses : forall c st id off b s n size st2 id2 off2 len2 b1,
+  cfg_ok c -> reach c st -> find_block id (blocks st) = Some b ->
+  s = off / pool_gran c (b_pool b) -> In (s, n) (b_live b) ->
+  find_block id (blocks (fst (release c st id off))) = Some b1 ->
+  0 <= size -> size + c_gran c <= JitModel.two64 ->
+  alloc c (fst (release c st id off)) size = (st2, RAlloc Ok id2 off2 len2) ->
+  size_to_pool c len2 = b_pool b -> len2 / pool_gran c (b_pool b) <= n ->
+  nextid st2 = nextid (fst (release c st id off)).
+Proof. exact release_then_alloc_reuses. Qed.
+Print Assumptions C09_release_then_alloc_reuses.
+
+Example C09_release_then_alloc_reuses_instance :
+  nextid (run cfg_f (init_state cfg_f) [OAlloc 100; OAlloc 100; ORelease 0 64; OAlloc 64]) = 1 /\
+  length (blocks (run cfg_f (init_state cfg_f) [OAlloc 100; OAlloc 100; ORelease 0 64; OAlloc 64])) = 1%nat.
+Proof. vm_compute. split; reflexivity. Qed.
+
+Theorem C09_shrink_then_alloc_reuses : forall c st id off ns b s n size st2 id2 off2 len2,
+  cfg_ok c -> reach c st -> find_block id (blocks st) = Some b ->
+  s = off / pool_gran c (b_pool b) -> In (s, n) (b_live b) -> 1 <= ns ->
+  let g := pool_gran c (b_pool b) in
+  let m := (ns + g - 1) / g in
+  m < n ->
+  0 <= size -> size + c_gran c <= JitModel.two64 ->
+  alloc c (fst (shrink c st id off ns)) size = (st2, RAlloc Ok id2 off2 len2) ->
+  size_to_pool c len2 = b_pool b -> len2 / g <= n - m ->
+  nextid st2 = nextid (fst (shrink c st id off ns)).
+Proof. exact shrink_then_alloc_reuses. Qed.
+Print Assumptions C09_shrink_then_alloc_reuses.
+
+Example C09_shrink_then_alloc_reuses_instance :
+  nextid (run cfg_f (init_state cfg_f) [OAlloc 1000; OAlloc 100; OShrink 0 64 64; OAlloc 512]) = 1 /\
+  map b_live (blocks (run cfg_f (init_state cfg_f) [OAlloc 1000; OAlloc 100; OShrink 0 64 64; OAlloc 512])) = [[(2, 8); (1, 1); (17, 2)]].
+Proof. vm_compute. split; reflexivity. Qed.
+
+(* ---------------------------------------------------------------- after everything has been released: nothing is accounted, only the
+   padding granules count as used, at most one block per pool (none under kImmediateRelease) is retained *)
+Theorem C09_all_released : forall c st, cfg_ok c -> reach c st -> all_live (blocks st) = [] ->
+  s_allocs (statistics c st) = 0 /\
+  s_used (statistics c st) = fold_right (fun b a => b_pad b * pool_gran c (b_pool b) + a) 0 (blocks st) /\
+  (forall p, 0 <= p < c_pools c -> sump onef p (blocks st) <= 1 /\ (c_imm c = true -> sump onef p (blocks st) = 0)).
+Proof. exact all_released_accounting. Qed.
+Print Assumptions C09_all_released.
+
+Example C09_all_released_instance :
+  all_live (blocks (run cfg_f (init_state cfg_f) [OAlloc 100; OAlloc 70000; ORelease 0 64; ORelease 0 192])) = [] /\
+  length (blocks (run cfg_f (init_state cfg_f) [OAlloc 100; OAlloc 70000; ORelease 0 64; ORelease 0 192])) = 1%nat /\
+  length (blocks (run cfg_f_imm (init_state cfg_f_imm) [OAlloc 100; ORelease 0 64])) = 0%nat.
+Proof. vm_compute. repeat split; reflexivity. Qed.
+
+(* ---------------------------------------------------------------- the safety facts over histories in which any alloc may hit a failing
+   virtual-memory request (reach_vm): live spans pairwise disjoint and inside their block, window soundness, exact count *)
+Theorem C09_vm_histories_sound : forall c st, cfg_ok c -> reach_vm c st ->
+  (forall b1 b2 sp1 sp2, In b1 (blocks st) -> In b2 (blocks st) -> In sp1 (b_live b1) -> In sp2 (b_live b2) ->
+     (b_id b1 = b_id b2 -> b1 = b2) /\
+     (1 <= snd sp1 /\ b_pad b1 <= fst sp1 /\ fst sp1 + snd sp1 <= b_area b1) /\
+     (b1 = b2 -> forall i, in_span sp1 i -> in_span sp2 i -> sp1 = sp2)) /\
+  (forall b, In b (blocks st) -> b_aused b < b_area b ->
+     forall i, 0 <= i < b_area b -> Z.testbit (b_used b) i = false -> b_ss b <= i < b_se b) /\
+  acount st = total_live (blocks st).
+Proof. exact reach_vm_sound. Qed.
+Print Assumptions C09_vm_histories_sound.
+
+Example C09_vm_histories_hyps_sat : reach_vm cfg_f (fst (alloc_vm cfg_f (init_state cfg_f) 100 false)).
+Proof. apply rv_fail. apply rv_init. Qed.
